@@ -446,6 +446,42 @@ func Gen(t *rapid.T, o Options) *Layout {
 		ireqSame = owner("ireqsameown")
 		m.feat["iface-requires-same-subgraph"] = true
 	}
+	// subgraph-level @requires edges of the whole layout (owner of the computed field -> owner
+	// of what it requires), over all entities: below an abstract parent the planner folds the
+	// fields one subgraph serves for several entity types into one fetch, so a circle
+	// s0 needs s1 needs s2 needs s0 may run through different entity types. Once a chain
+	// (a computed field requiring a computed field) takes part, such a circle makes the fetch
+	// dependencies cyclic and a required field is sent as null (finding
+	// C01-requires-cycle-between-subgraphs); circles of plain @requires fields are planned
+	// correctly and stay in.
+	gEdges := map[int][]int{}
+	hasChain := false
+	var reachG func(from, to int, seen map[int]bool) bool
+	reachG = func(from, to int, seen map[int]bool) bool {
+		if from == to {
+			return true
+		}
+		if seen[from] {
+			return false
+		}
+		seen[from] = true
+		for _, n := range gEdges[from] {
+			if reachG(n, to, seen) {
+				return true
+			}
+		}
+		return false
+	}
+	// closes reports whether a new edge from -> to must stay out; it records the edge otherwise
+	closes := func(from, to int, chain bool) bool {
+		if (chain || hasChain) && reachG(to, from, map[int]bool{}) && !o.Allow["requires-cycle-between-subgraphs"] {
+			m.feat["excluded:requires-cycle-between-subgraphs"] = true
+			return true
+		}
+		gEdges[from] = append(gEdges[from], to)
+		hasChain = hasChain || chain
+		return false
+	}
 	// @requires: a computed field owned by a subgraph that does not own the required scalar
 	for _, e := range m.objs {
 		if !e.entity {
@@ -460,7 +496,7 @@ func Gen(t *rapid.T, o Options) *Layout {
 			// subgraph, are the cycle of finding C01-requires-cycle-between-subgraphs)
 			if !ireqComputed && rapid.Bool().Draw(t, "ireqcomputed") {
 				for _, g := range e.fields {
-					if g.args == "" && isScalarName(g.named) && len(g.owners) == 1 && g.owners[0] != f.owners[0] && !strings.HasPrefix(g.name, "err") && !strings.HasPrefix(g.name, "echo") && g.name != "ireq" {
+					if g.args == "" && isScalarName(g.named) && len(g.owners) == 1 && g.owners[0] != f.owners[0] && !strings.HasPrefix(g.name, "err") && !strings.HasPrefix(g.name, "echo") && g.name != "ireq" && !closes(f.owners[0], g.owners[0], false) {
 						f.requires = g.name
 						ireqComputed = true
 						break
@@ -483,7 +519,7 @@ func Gen(t *rapid.T, o Options) *Layout {
 				continue
 			}
 			o := owner("reqown")
-			if o == g.owners[0] {
+			if o == g.owners[0] || closes(o, g.owners[0], false) {
 				continue
 			}
 			extra = append(extra, &field{name: "req_" + g.name, typ: "String", named: "String", owners: []int{o}, requires: g.name, provides: map[int]string{}})
@@ -499,46 +535,9 @@ func Gen(t *rapid.T, o Options) *Layout {
 		if len(extra) > 0 && m.nsub >= 2 && rapid.IntRange(0, 2).Draw(t, "reqchain") == 0 && !o.Exclude["requires-chain"] {
 			base := extra[0]
 			o2 := owner("reqchainown")
-			// subgraph-level @requires edges of this entity (owner of the computed field ->
-			// owner of what it requires): when the chain closes a cycle between subgraphs
-			// (s0 needs s1 needs s2 needs s0, each for another field) the planner folds the
-			// fields of one subgraph into one fetch, the fetch dependencies become cyclic and
-			// post-processing overflows the stack (finding C01-requires-cycle-between-subgraphs)
-			edges := map[int][]int{}
-			for _, x := range append(append([]*field{}, extra...), e.fields...) {
-				if x.requires == "" || len(x.owners) == 0 {
-					continue
-				}
-				for _, rn := range strings.Fields(x.requires) {
-					for _, g := range e.fields {
-						if g.name == rn && len(g.owners) > 0 {
-							edges[x.owners[0]] = append(edges[x.owners[0]], g.owners[0])
-						}
-					}
-				}
-			}
-			edges[o2] = append(edges[o2], base.owners[0])
-			var reach func(from, to int, seen map[int]bool) bool
-			reach = func(from, to int, seen map[int]bool) bool {
-				if from == to {
-					return true
-				}
-				if seen[from] {
-					return false
-				}
-				seen[from] = true
-				for _, n := range edges[from] {
-					if reach(n, to, seen) {
-						return true
-					}
-				}
-				return false
-			}
-			cyclic := reach(base.owners[0], o2, map[int]bool{})
 			switch {
 			case o2 == base.owners[0]:
-			case cyclic && !o.Allow["requires-cycle-between-subgraphs"]:
-				m.feat["excluded:requires-cycle-between-subgraphs"] = true
+			case closes(o2, base.owners[0], true):
 			default:
 				extra = append(extra, &field{name: "chain_" + base.requires, typ: "String", named: "String", owners: []int{o2}, requires: base.name, provides: map[int]string{}})
 				m.feat["requires-chain"] = true
